@@ -72,6 +72,7 @@ type Engine struct {
 	initialWork [][]int64
 	forkSites   map[string]int
 	querySites  map[string]int
+	unboundedAllocs []string
 }
 
 type Stats struct {
@@ -391,11 +392,22 @@ func (e *Exec) concretize(fr *frame, t *Term, what string) int64 {
 		vals = append(vals, sx(uv, t.sort.W))
 		if len(vals) > limit {
 			e.solver.Pop()
+			if strings.HasPrefix(what, "make") {
+				// An allocation size that the path condition does not bound: explore only the smallest
+				// feasible sizes (so that harness assertions on the result can expose the missing
+				// guard) and flag the run as incomplete.
+				vals = e.smallestValues(tv, 6)
+				e.eng.mu.Lock()
+				e.eng.unboundedAllocs = append(e.eng.unboundedAllocs, fmt.Sprintf("%s at %s", what, fr.pos()))
+				e.eng.mu.Unlock()
+				goto chosen
+			}
 			e.abort("unwind", "more than %d feasible values for %s at %s", limit, what, fr.pos())
 		}
 		e.solver.Assert(c.Not(c.Eq(tv, c.Const(t.sort.W, uv))))
 	}
 	e.solver.Pop()
+chosen:
 	if len(vals) == 0 {
 		e.abort("infeasible", "no feasible value for %s", what)
 	}
@@ -407,6 +419,34 @@ func (e *Exec) concretize(fr *frame, t *Term, what string) int64 {
 	e.recordDecision(vals[0], false)
 	e.assertPC(c.Eq(t, c.Const(t.sort.W, uint64(vals[0]))))
 	return vals[0]
+}
+
+// smallestValues returns up to k smallest non-negative feasible values of tv (binary search with the solver).
+func (e *Exec) smallestValues(tv *Term, k int) []int64 {
+	c := e.ctx
+	w := tv.sort.W
+	var out []int64
+	lower := int64(0)
+	for len(out) < k {
+		// is there a feasible value >= lower ?
+		lo, hi := lower, int64(1)<<40
+		ge := func(v int64) *Term { return c.Cmp(OpSLe, c.Const(w, uint64(v)), tv) }
+		le := func(v int64) *Term { return c.Cmp(OpSLe, tv, c.Const(w, uint64(v))) }
+		if e.checkWith(c.And(ge(lo), le(hi))) != Sat {
+			break
+		}
+		for lo < hi {
+			mid := lo + (hi-lo)/2
+			if e.checkWith(c.And(ge(lo), le(mid))) == Sat {
+				hi = mid
+			} else {
+				lo = mid + 1
+			}
+		}
+		out = append(out, lo)
+		lower = lo + 1
+	}
+	return out
 }
 
 func (e *Exec) concreteInt(fr *frame, v Value, what string) int64 {
